@@ -11,8 +11,10 @@
  *                   source; live allocations at the end.
  *                   after each mutation the trees are compared again, and the mutated
  *                   source is deep-copied once more (a tree WITH a history as copy source)
- *   H <a> <ha> <b> <hb>  both trees get a history (mutations joined by ';', '-' = none);
- *                   equal both ways and on themselves; deep copy of a' compared with a', b'
+ *   H <a> <ha> <b> <hb> [<hg>]  both trees get a history (mutations joined by ';', '-' = none);
+ *                   equal both ways and on themselves; deep copy of a'; then the steps hg
+ *                   (process-wide settings only); then the copy compared with a', b' and
+ *                   a' with b' once more
  *   Y <a> <rules> <tags>  deep copy through a caller-supplied json_c_shallow_copy_fn that
  *                   wraps json_c_shallow_copy_default and answers as scripted:
  *                   rules = '-' | <cond>=<ans>;...  (first match wins, default 1),
@@ -28,7 +30,10 @@
  *                   serializations (of 6), tags found on the copy; live blocks at the end.
  * mut = <path>:<op>, path = (/i<idx> | /k<hexkey|->)*,
  * op = A<jv> | P<hexkey|->=<jv> | K<hexkey|-> | I<dec> | U<dec> | B<0|1> | S<hex|-> | D<16hex>
- *    | Z<idx>=<jv> (array_put_idx) | X<idx>,<count> (array_del_idx). */
+ *    | Z<idx>=<jv> (array_put_idx) | X<idx>,<count> (array_del_idx).
+ * A step may also be a process-wide setting (no path): @H<0|1> json_global_set_string_hash
+ * (default | perl-like), @F<hexformat|-> json_c_set_serialization_double_format(fmt | NULL,
+ * JSON_C_OPTION_GLOBAL).  Both are put back to their defaults at the end of every case. */
 #include "common.h"
 #include "jvtext.h"
 const char *DOMAIN = "eq";
@@ -98,9 +103,33 @@ static struct json_object *parse_tree(const char *s)
 }
 
 /* apply the mutation; 1 = done, 0 = path or type does not fit (nothing changed) */
+static int globals_dirty;
+static void reset_globals(void)
+{
+	if (!globals_dirty) return;
+	json_global_set_string_hash(JSON_C_STR_HASH_DFLT);
+	json_c_set_serialization_double_format(NULL, JSON_C_OPTION_GLOBAL);
+	globals_dirty = 0;
+}
+static int global_step(const char *m)
+{
+	globals_dirty = 1;
+	if (m[1] == 'H') return json_global_set_string_hash(atoi(m + 2)) == 0;
+	if (m[1] == 'F') {
+		const char *p = m + 2; size_t n; unsigned char *f; int rc;
+		if (*p == '-') return json_c_set_serialization_double_format(NULL, JSON_C_OPTION_GLOBAL) == 0;
+		f = jv_hexordash(&p, &n);
+		rc = json_c_set_serialization_double_format((char *)f, JSON_C_OPTION_GLOBAL);
+		(free)(f);
+		return rc == 0;
+	}
+	return 0;
+}
+
 static int mutate(struct json_object *o, const char *m)
 {
 	const char *p = m;
+	if (*m == '@') return global_step(m);
 	while (*p == '/') {
 		p++;
 		if (*p == 'i') {
@@ -195,7 +224,7 @@ static void run_copy(char *sa, char *mut)
 		printf("C %d %s | ", rc, errno_name(errno));
 		json_object_put(c1);
 		json_object_put(a);
-		printf("live=%ld", xa_live);
+		reset_globals(); printf("live=%ld", xa_live);
 		return;
 	}
 	printf("C %d %d %d ", rc, json_object_equal(a, c1), json_object_equal(c1, a));
@@ -235,7 +264,7 @@ static void run_copy(char *sa, char *mut)
 	printf(" | D1 %d ", json_object_put(c1)); eq_dump(a);
 	printf(" | D2 %d ", json_object_put(a)); eq_dump(c2);
 	json_object_put(c2);
-	printf(" | live=%ld", xa_live);
+	reset_globals(); printf(" | live=%ld", xa_live);
 }
 
 /* ---- scripted shallow-copy callback ---- */
@@ -412,26 +441,26 @@ static void run_cb_copy(char *sa, const char *rules, const char *tags)
 		json_object_put(c);
 	}
 	json_object_put(a);
-	printf(" | live=%ld", xa_live);
+	reset_globals(); printf(" | live=%ld", xa_live);
 }
 
 void run_case(char *rest)
 {
-	char *tok[6] = {0}, *save = NULL, *t;
+	char *tok[7] = {0}, *save = NULL, *t;
 	int n = 0;
-	for (t = strtok_r(rest, " ", &save); t && n < 6; t = strtok_r(NULL, " ", &save)) tok[n++] = t;
+	for (t = strtok_r(rest, " ", &save); t && n < 7; t = strtok_r(NULL, " ", &save)) tok[n++] = t;
 	xa_reset();
 	if (n == 3 && !strcmp(tok[0], "E")) {
 		struct json_object *a = parse_tree(tok[1]), *b = parse_tree(tok[2]);
 		printf("E %d %d %d %d", json_object_equal(a, b), json_object_equal(b, a), json_object_equal(a, a), json_object_equal(b, b));
 		json_object_put(a); json_object_put(b);
-		printf(" live=%ld", xa_live);
+		reset_globals(); printf(" live=%ld", xa_live);
 	} else if (n == 4 && !strcmp(tok[0], "T")) {
 		struct json_object *a = parse_tree(tok[1]), *b = parse_tree(tok[2]), *c = parse_tree(tok[3]);
 		printf("T %d %d %d %d %d %d", json_object_equal(a, b), json_object_equal(b, c), json_object_equal(a, c),
 		       json_object_equal(b, a), json_object_equal(c, b), json_object_equal(c, a));
 		json_object_put(a); json_object_put(b); json_object_put(c);
-		printf(" live=%ld", xa_live);
+		reset_globals(); printf(" live=%ld", xa_live);
 	} else if (n == 2 && !strcmp(tok[0], "X")) {
 		struct json_object *a = parse_tree(tok[1]);
 		struct json_object *w1 = json_object_new_array(), *w2 = json_object_new_array();
@@ -442,8 +471,10 @@ void run_case(char *rest)
 		json_object_object_add(o2, "k", json_object_get(a));
 		printf("X %d %d", json_object_equal(w1, w2), json_object_equal(o1, o2));
 		json_object_put(w1); json_object_put(w2); json_object_put(o1); json_object_put(o2);
-		printf(" live=%ld", xa_live);
-	} else if (n == 5 && !strcmp(tok[0], "H")) {
+		reset_globals(); printf(" live=%ld", xa_live);
+	} else if ((n == 5 || n == 6) && !strcmp(tok[0], "H")) {
+		char none[] = "-";
+		char *hg = n == 6 ? tok[5] : none;
 		struct json_object *a = parse_tree(tok[1]), *b = parse_tree(tok[3]), *c = NULL;
 		int rc;
 		printf("H ");
@@ -452,7 +483,7 @@ void run_case(char *rest)
 		printf(" %d %d %d %d", json_object_equal(a, b), json_object_equal(b, a), json_object_equal(a, a), json_object_equal(b, b));
 		errno = 0;
 		rc = json_object_deep_copy(a, &c, NULL);
-		if (rc < 0) printf(" | K %d %s", rc, errno_name(errno));
+		if (rc < 0) { printf(" | K %d %s ", rc, errno_name(errno)); run_hist(NULL, hg); printf(" %d", json_object_equal(a, b)); }
 		else {
 			struct aset sa_set = {0}, sc_set = {0};
 			int i, same = 0;
@@ -460,6 +491,8 @@ void run_case(char *rest)
 			collect(a, &sa_set); collect(c, &sc_set);
 			printf(" %zu", shared(&sa_set, &sc_set));
 			(free)(sa_set.v); (free)(sc_set.v);
+			putchar(' '); run_hist(NULL, hg);    /* settings changed between copying and comparing */
+			printf(" %d %d %d", json_object_equal(a, c), json_object_equal(c, a), json_object_equal(a, b));
 			for (i = 0; i < 6; i++) {
 				size_t la = 0, lc = 0;
 				const char *ta = json_object_to_json_string_length(a, FLAGS[i], &la);
@@ -469,7 +502,7 @@ void run_case(char *rest)
 			printf(" %d %d %d", same, json_object_equal(c, b), json_object_equal(b, c));
 		}
 		json_object_put(a); json_object_put(b); json_object_put(c);
-		printf(" | live=%ld", xa_live);
+		reset_globals(); printf(" | live=%ld", xa_live);
 	} else if (n == 4 && !strcmp(tok[0], "Y")) {
 		run_cb_copy(tok[1], tok[2], tok[3]);
 	} else if (n == 3 && !strcmp(tok[0], "C")) {
